@@ -152,7 +152,7 @@ def general_int_xpath1(a0: int, a1: int, n: int, b0: int, b1: int, m: int) -> bo
     return all(_gen(k, A, Bv, TG1) == any(f(x, y) for x in A for y in Bv) for k, f in OPS.items())
 
 
-@ob(budget=120, bound='anyURI vs string / anyURI, ASCII letters, length <= 2', funcs=['elementpath/datatypes/uri.py', O2])
+@ob(budget=260, bound='anyURI vs string / anyURI, ASCII letters, length <= 2', funcs=['elementpath/datatypes/uri.py', O2])
 def value_anyuri(a: str, b: str) -> bool:
     """
     pre: len(a) <= 2 and len(b) <= 2 and all('A' <= c <= 'z' and c.isalpha() for c in a + b)
